@@ -176,6 +176,8 @@ structure Decl where
   name : String
   includes : List String
   inherits : List String
+  save : Bool := false              -- #pragma save_binary in force at the end of the file
+  ssw : Option Nat := none          -- number of string switches in the source (declared by the generator)
   deriving Repr, Inhabited
 
 structure JState where
@@ -193,6 +195,7 @@ structure JState where
   top : String := ""
   bad : List String := []
   pendingUnit : List (List String) := []       -- unit commands whose output has not been seen yet
+  expects : List (String × String) := []       -- call ↦ the value the source text prescribes (string switch cases)
   deriving Inhabited
 
 def JState.flag (s : JState) (v : String) : JState := { s with bad := v :: s.bad }
@@ -246,7 +249,9 @@ def caseLine (s : JState) (line : String) : JState :=
                          simulTouchedSinceRestart := s.simulTouchedSinceRestart || stripSlash p == simulPath }
     | none => s
   | "prog" :: name :: rest =>
-    { s with decls := { name := name, includes := csv (kv rest "inc"), inherits := csv (kv rest "inh") } :: s.decls }
+    { s with decls := { name := name, includes := csv (kv rest "inc"), inherits := csv (kv rest "inh"),
+                        save := kv rest "save" == "1", ssw := (kv rest "ssw").toNat? } :: s.decls.filter (·.name != name) }
+  | ["expect", call, res] => { s with expects := (call, res) :: s.expects.filter (·.1 != call) }
   | "usort" :: rest => { s with pendingUnit := s.pendingUnit ++ [("usort" :: rest)] }
   | "ureloc" :: rest => { s with pendingUnit := s.pendingUnit ++ [("ureloc" :: rest)] }
   | "upatch" :: rest => { s with pendingUnit := s.pendingUnit ++ [("upatch" :: rest)] }
@@ -343,6 +348,14 @@ def endBlock (s : JState) : JState :=
   -- every dumped program
   let s := s.cur.foldl (fun s (tag, d) =>
     let s := (wellFormed tag d).foldl JState.flag s
+    let dc := declOf s (tag ++ ".c")
+    let s :=
+      match dc.save, dc.ssw with
+      | true, some n =>
+        -- a saved program: every string switch of the source must be in the patch list
+        if (d.kind "sw").length == n then s
+        else s.flag s!"string-switch-not-in-patch-list {tag} patched={(d.kind "sw").length} in-source={n}"
+      | _, _ => s
     if s.used.contains (tag ++ ".c") then
       match s.fresh.lookup tag with
       | some f => (sameProgram tag f d).foldl JState.flag s
@@ -380,7 +393,17 @@ def traceLine (s : JState) (unitSeen : Nat) (line : String) : JState × Nat :=
     let d := (s.cur.lookup tag).getD {}
     let s := if s.top == "" || s.cur.isEmpty then { s with top := tag } else s
     ({ s with cur := (s.cur.filter (·.1 != tag)) ++ [(tag, { lines := d.lines ++ [rest] })] }, unitSeen)
-  | "R" :: rest => ({ s with curR := " ".intercalate rest :: s.curR }, unitSeen)
+  | "R" :: rest =>
+    let s := { s with curR := " ".intercalate rest :: s.curR }
+    match rest with
+    | [call, res] =>
+      match s.expects.lookup call with
+      | some want =>
+        -- every string case must be reachable, after a compile and after a load from the binary alike
+        if res == "\"" ++ want ++ "\"" then (s, unitSeen)
+        else (s.flag s!"string-case-unreachable {call} got={res} want={want}", unitSeen)
+      | none => (s, unitSeen)
+    | _ => (s, unitSeen)
   | "sw" :: k :: ents :: [] =>
     match s.pendingUnit with
     | cmd :: more =>
@@ -411,6 +434,13 @@ def judge (caseLines : List String) (trace : List String) : List String :=
       | c :: rest =>
         let s := caseLine s c
         match toks c with
+        | "reloadp" :: top :: _ =>
+          let blk := tr.takeWhile (fun l => !(l.startsWith "end "))
+          let after := tr.drop blk.length
+          let s := { s with top := top }
+          let s := (blk ++ after.take 1).foldl (fun s l => (traceLine s 0 l).1) s
+          let s := if after.isEmpty then s.flag s!"reload-did-not-finish {top}" else s
+          go rest (after.drop 1) s fuel
         | "reload" :: top :: _ =>
           -- consume up to and including the matching `end`
           let blk := tr.takeWhile (fun l => !(l.startsWith "end "))
